@@ -12,6 +12,12 @@ CHECKS = {
  "C06": dict(cat="proof", tech="machine-checked proof in Coq + extracted-model/implementation correspondence",
    text="17 Coq theorems about the scheduler model (collect_ready_tasks, sort, background programs): executed tasks are exactly the due ones (rising edge of SINGLE or elapsed INTERVAL), at most once, sorted by (priority, due time, index), background programs last in declaration order, overruns counted and not replayed, edge detection against the previous cycle over any timeline. Tied to runtime/cycle.rs by running generated CONFIGURATIONs and timelines through the real compiler and scheduler; an independent executable spec judges the implementation's observed sequences.",
    note="Clocks assumed within i64 (in_i64 hypotheses); FB-instance task associations not generated."),
+ "C07": dict(cat="proof", tech="machine-checked proof in Coq + extracted-model/implementation correspondence",
+   text="16 Coq theorems: a direct-address write changes only the addressed bytes/bit and grows the image only to cover the span; read-after-write; disjoint writes do not disturb reads; little-endian layout; signed/unsigned round trips; a successful cycle calls every driver's read once before and every driver's write once after execution with the final image; input-bound variables equal the decoded latched bytes; published bytes encode the final variables; a cycle whose program faults publishes nothing program-computed. Tied to io.rs/runtime/cycle.rs by running generated ST programs with AT-bound variables and scripted logging drivers through the real runtime.",
+   note="Program execution modelled for copy statements + one fault-injection statement; hierarchical/wildcard addresses and debugger forcing not generated."),
+ "C08": dict(cat="proof", tech="machine-checked proof in Coq + extracted-model/implementation correspondence with fault injection",
+   text="12 Coq theorems: every faulting cycle, watchdog timeout and simulation fault latches the fault; a faulted runtime refuses any number of later cycles without any driver call or state change; the FaultDecision table; every well-typed safe-state entry reads back from the image; the safe image is delivered to every driver whatever the drivers answer; the old stop-at-first-error loop is refuted by a witness. Faults are injected at every statement index, in driver reads/writes (k-th call), by watchdog and simulation fault, for all policy combinations.",
+   note="Same model and harness as C07 (Model/Cycle.v, harness/src/bin/c07.rs); scheduler-thread fault branches (scheduler.rs) are not modelled here (see C20)."),
 }
 REASON_TODO = "check not built yet (work in progress; see DESIGN.md §5 order of work)"
 NA = {}
